@@ -159,8 +159,20 @@ pub fn run_miri(prop: &str, tier: Tier, seed: u64, root: &Path, nproc: u64, tmp:
 
 /// Write seeds for the fuzzers: valid corpus messages, hostile messages, stretched messages.
 pub fn dump_corpus(dir: &Path, seed: u64) -> usize {
+    dump_corpus_for(dir, seed, "")
+}
+
+pub fn dump_corpus_for(dir: &Path, seed: u64, target: &str) -> usize {
     let _ = std::fs::create_dir_all(dir);
     let mut n = 0;
+    if target == "pipeline" {
+        // sequences of length-prefixed datagrams
+        for (i, b) in props::c14::fuzz_seeds(seed).into_iter().enumerate() {
+            let _ = std::fs::write(dir.join(format!("seq-{}", i)), b);
+            n += 1;
+        }
+        return n;
+    }
     for ci in 0..42 * 8u64 {
         let b = props::c01::corpus_msg(seed, ci).1.bytes;
         let _ = std::fs::write(dir.join(format!("corpus-{}", ci)), b);
@@ -185,7 +197,7 @@ pub fn run_fuzz(prop: &str, target: &str, tier: Tier, seed: u64, root: &Path, tm
     let corpus = tmp.join(format!("fuzz-corpus-{}", target));
     let artifacts = tmp.join(format!("fuzz-artifacts-{}", target));
     let _ = std::fs::create_dir_all(&artifacts);
-    let seeds = dump_corpus(&corpus, seed);
+    let seeds = dump_corpus_for(&corpus, seed, target);
     let log = tmp.join(format!("fuzz-{}.log", target));
     let lf = std::fs::File::create(&log).unwrap();
     let lf2 = lf.try_clone().unwrap();
